@@ -49,6 +49,112 @@ fn counting(c: &Value) -> Value {
 pub fn run(c: &Value) -> Value {
     match strf(c, "op") {
         "counting" => counting(c),
+        "real" => real(c),
         op => panic!("unknown op {op}"),
+    }
+}
+
+// ------------------------------------------------------------------ real samplers
+use crate::zoo::*;
+use burn::prelude::*;
+use mini_mcmc::distributions::DiffableGaussian2D;
+use mini_mcmc::nuts::{NUTSChain, NUTS};
+use mini_mcmc::verif::tensor_f64;
+
+fn bits64(v: &[f64]) -> Vec<u64> {
+    v.iter().map(|x| x.to_bits()).collect()
+}
+
+/// run(n,d) on one instance vs manual stepping of an identically built instance; plus two consecutive
+/// runs vs one long run. Output: per chain the trajectory (state after t transitions, t = 0..) and the rows.
+fn real(c: &Value) -> Value {
+    let (n, d) = (us(c, "n"), us(c, "d"));
+    let n2 = us(c, "n2");
+    match (strf(c, "kind"), strf(c, "f")) {
+        ("mh", "f64") => {
+            let mut a = build_mh64(c);
+            let mut b = build_mh64(c);
+            let mut l = build_mh64(c);
+            let out = a.run(n, d).unwrap();
+            let out2 = a.run(n2, 0).unwrap();
+            let long = l.run(n + n2, d).unwrap();
+            let traj: Vec<Vec<Vec<u64>>> = b.chains.iter_mut().map(|ch| {
+                let mut t = vec![bits64(&ch.current_state)];
+                for _ in 0..(n + d + n2) { t.push(bits64(ch.step())); }
+                t
+            }).collect();
+            let fin: Vec<Vec<u64>> = a.chains.iter().map(|ch| bits64(&ch.current_state)).collect();
+            json!({"traj": traj, "run": arr_f64(&out).bits, "run2": arr_f64(&out2).bits, "long": arr_f64(&long).bits,
+                   "shape": out.shape(), "final": fin})
+        }
+        ("gibbs", _) => {
+            let mut a = build_gibbs(c);
+            let mut b = build_gibbs(c);
+            let mut l = build_gibbs(c);
+            let out = a.run(n, d).unwrap();
+            let out2 = a.run(n2, 0).unwrap();
+            let long = l.run(n + n2, d).unwrap();
+            let traj: Vec<Vec<Vec<u64>>> = b.chains.iter_mut().map(|ch| {
+                let mut t = vec![bits64(&ch.current_state)];
+                for _ in 0..(n + d + n2) { t.push(bits64(ch.step())); }
+                t
+            }).collect();
+            let fin: Vec<Vec<u64>> = a.chains.iter().map(|ch| bits64(&ch.current_state)).collect();
+            json!({"traj": traj, "run": arr_f64(&out).bits, "run2": arr_f64(&out2).bits, "long": arr_f64(&long).bits,
+                   "shape": out.shape(), "final": fin})
+        }
+        ("hmc", "f32") => {
+            let mut a = build_hmc::<f32, B32>(c);
+            let mut b = a.clone();
+            let mut l = a.clone();
+            let out = a.run(n, d);
+            let out2 = a.run(n2, 0);
+            let long = l.run(n + n2, d);
+            let nc = us(c, "n_chains");
+            let mut traj: Vec<Vec<Vec<u64>>> = vec![vec![]; nc];
+            let push = |traj: &mut Vec<Vec<Vec<u64>>>, pos: &Tensor<B32, 2>| {
+                let v = tensor_f64(pos);
+                let dim = v.len() / nc;
+                for ch in 0..nc { traj[ch].push(bits64(&v[ch * dim..(ch + 1) * dim])); }
+            };
+            push(&mut traj, &b.positions);
+            for _ in 0..(n + d + n2) { b.step(); push(&mut traj, &b.positions); }
+            let w = |t: &Tensor<B32, 3>| bits64(&tensor_f64(t));
+            let mut fin: Vec<Vec<Vec<u64>>> = vec![vec![]; nc];
+            push(&mut fin, &a.positions);
+            json!({"traj": traj, "run": w(&out), "run2": w(&out2), "long": w(&long), "shape": out.dims(),
+                   "final": fin.iter().map(|x| x[0].clone()).collect::<Vec<_>>()})
+        }
+        ("nuts", "f32") => {
+            // single chain: run vs init_chain + manual steps; then NUTS::run vs the individual chains' runs
+            let t = |x: f64| x as f32;
+            let target = DiffableGaussian2D::new([t(0.0), t(1.0)], [[t(4.0), t(2.0)], [t(2.0), t(3.0)]]);
+            let seed = u64f(c, "seed");
+            let nc = us(c, "n_chains");
+            let inits = init_states::<f32>(c, 2);
+            let mut traj = vec![];
+            let mut runs = vec![];
+            let mut runs2 = vec![];
+            let mut fin = vec![];
+            for (i, x0) in inits.iter().enumerate() {
+                let cs = seed.wrapping_add(i as u64).wrapping_add(1);
+                let mut a = NUTSChain::<f32, B32, _>::new(target.clone(), x0.clone(), t(0.8)).set_seed(cs);
+                let mut b = a.clone();
+                let o1 = a.run(n, d);
+                let o2 = a.run(n2.max(1), 0);
+                let mut tr = vec![bits64(&tensor_f64(&b.position))];
+                b.init_chain_verif(n, d);
+                for _ in 1..(n + d) { b.step(); tr.push(bits64(&tensor_f64(&b.position))); }
+                traj.push(tr);
+                runs.push(bits64(&tensor_f64(&o1)));
+                runs2.push(bits64(&tensor_f64(&o2)));
+                fin.push(bits64(&tensor_f64(&a.position)));
+            }
+            let mut multi = NUTS::<f32, B32, _>::new(target, inits, t(0.8)).set_seed(seed);
+            let mo = multi.run(n, d);
+            let _ = nc;
+            json!({"traj": traj, "chain_runs": runs, "chain_runs2": runs2, "multi": bits64(&tensor_f64(&mo)), "shape": mo.dims(), "final": fin})
+        }
+        (k, f) => panic!("unknown real sampler {k}/{f}"),
     }
 }
